@@ -190,4 +190,24 @@ Proof.
   destruct Hedge as [E1 | E1]; inversion E1; subst; [left | right]; reflexivity.
 Qed.
 
+(* ------------------------------------------------------------------ vertex-based field: the representation power *)
+(* vertex2d._initialize_variables raises the edge directions to the power of the field's ORDER (unlike faces2d): with a
+   single feature edge e = (A, B) and the plain-sum branch (odd order or smooth_normals off), the accumulated constraints
+   of its end points are  0 + e^{i order transport(A,B)}  and  0 + e^{i order transport(B,A)} *)
+Theorem init_vertices_single_edge (order : nat) (V : list vec) (E : list edge) (Bv : list (vec * vec))
+    (tr : Z -> Z -> cx) (e A B : Z) :
+  znth E e (0, 0)%Z = (A, B) -> A <> B ->
+  cstrv_smooth_branch false (Z.of_nat order) = false /\
+  (forall k, cstrv_power k = k) /\
+  init_vertices_acc O false order V E Bv tr [e] A = cadd O (c0 O) (cpow O (tr A B) order) /\
+  init_vertices_acc O false order V E Bv tr [e] B = cadd O (c0 O) (cpow O (tr B A) order).
+Proof.
+  intros HE HAB. split; [reflexivity |]. split; [intros k; reflexivity |].
+  unfold init_vertices_acc. cbn [fold_left]. rewrite HE. cbn [cstrv_smooth_branch andb].
+  unfold fupd, cstrv_power. rewrite !Z.eqb_refl.
+  assert (E1 : (A =? B)%Z = false) by (apply Z.eqb_neq; exact HAB).
+  assert (E2 : (B =? A)%Z = false) by (apply Z.eqb_neq; intro H; apply HAB; symmetry; exact H).
+  rewrite E1, ?E2. split; reflexivity.
+Qed.
+
 End Cstr.
